@@ -1691,7 +1691,13 @@ pub fn gen_zoo(rng: &mut Rng) -> World {
                 let mut h = body.clone();
                 if rng.coin(50) {
                     for lit in ["3", "2"] {
-                        if let Some(i) = h.find(lit) {
+                        // a const literal, not a digit inside `i32` / `u32`
+                        let hit = h.match_indices(lit).map(|(i, _)| i).find(|&i| {
+                            let prev = h[..i].chars().last().unwrap_or(' ');
+                            let next = h[i + 1..].chars().next().unwrap_or(' ');
+                            !prev.is_alphanumeric() && !next.is_alphanumeric()
+                        });
+                        if let Some(i) = hit {
                             h.replace_range(i..i + 1, "MH");
                             ec.push("MH".into());
                             break;
